@@ -487,7 +487,7 @@ func hcStorage(r *hcRun, hr *Rng, steps int, limit int) {
 	base := NewLogBase()
 	addr := 1 + uint64(hr.Intn(2))
 	opts := WorldOpts{Addr: addr, MaxDepth: 1 + hr.Intn(3), Wrap: hr.Bool(), Maps: true,
-		Detach: hr.Chance(50), LargeVals: hr.Chance(60), PopChild: true, KeySpace: []int{60, 60, 400}[hr.Intn(3)]}
+		Detach: hr.Chance(50), LargeVals: hr.Chance(60), PopChild: true, KeySpace: []int{60, 60, 400}[hr.Intn(3)], SelfSet: hr.Chance(50)}
 	w := NewWorld(base, hr, opts, rep)
 	failed := false
 	w.Fail = func(what, detail string) {
